@@ -192,7 +192,12 @@ class whiledo(ifthenelse):
         a = self.parse(tex)
         tok: List[Token] = []
         while True:
-            expanded = tex.expandTokens(a['test'], parentNode=self.parentNode)
+            # \( and \) group sub-expressions here as well (see ifthenelse)
+            BeginMath.disableMath = EndMath.disableMath = True
+            try:
+                expanded = tex.expandTokens(a['test'], parentNode=self.parentNode)
+            finally:
+                BeginMath.disableMath = EndMath.disableMath = False
             if isinstance(expanded, TeXFragment):
                 test_result = self.evaluate(tex, expanded)
             else:
